@@ -1,6 +1,7 @@
 package main
 
 import (
+	"encoding/binary"
 	"bytes"
 	"fmt"
 	"math/rand"
@@ -199,4 +200,77 @@ func corpusStreams(maxLen int) []baseStream {
 		out = append(out, baseStream{kind, "liblzma/" + n, s, raw, chk})
 	}
 	return out
+}
+
+// farMatchStreams: library-written streams of all three formats whose content is a random block followed by a copy
+// of its beginning, so that matches at distances well above 4096 (up to the content length) occur while the
+// dictionary the stream was written with is larger. Used with a declared / allocated dictionary that is made
+// smaller than those distances (the reader must report an error, never panic or deliver other bytes).
+func farMatchStreams(rng *rand.Rand, n int) []baseStream {
+	var out []baseStream
+	for i := 0; i < n; i++ {
+		blk := 5000 + rng.Intn(9000)
+		data := genRandom(rng, blk)
+		data = append(data, data[:1000+rng.Intn(blk-1000)]...)
+		data = append(data, genText(rng, rng.Intn(2000))...)
+		switch i % 3 {
+		case 0:
+			c := xzCfg{LC: 3, PB: 2, DictCap: 1 << 16, BufSize: 4096, CheckSum: []byte{1, 4, 10}[rng.Intn(3)]}
+			w := goXzWrite(c, data, []int{len(data)}, 60*time.Second)
+			if w.firstErr() == "" {
+				out = append(out, baseStream{"xz", fmt.Sprintf("far-match/xz/%d", len(data)), w.Out, data, checksumOf(c)})
+			}
+		case 1:
+			var buf bytes.Buffer
+			w, err := lzma.Writer2Config{DictCap: 1 << 16}.NewWriter2(&buf)
+			if err == nil {
+				w.Write(data)
+				if w.Close() == nil {
+					out = append(out, baseStream{"lzma2", fmt.Sprintf("far-match/lzma2/%d", len(data)), buf.Bytes(), data, 0})
+				}
+			}
+		default:
+			var buf bytes.Buffer
+			w, err := lzma.WriterConfig{DictCap: 1 << 16, SizeInHeader: rng.Intn(2) == 0, Size: int64(len(data)), EOSMarker: true}.NewWriter(&buf)
+			if err == nil {
+				w.Write(data)
+				if w.Close() == nil {
+					out = append(out, baseStream{"lzma", fmt.Sprintf("far-match/lzma/%d", len(data)), buf.Bytes(), data, 0})
+				}
+			}
+		}
+	}
+	return out
+}
+
+// shrinkDict returns the stream with its declared dictionary made 4096 bytes (xz: every block header, CRC re-sealed;
+// classic LZMA: header field) and the DictCap to read it with; LZMA2 has no declared size, only the reader's DictCap.
+func shrinkDict(b baseStream) (stream []byte, dictCap int, ok bool) {
+	t := append([]byte{}, b.Stream...)
+	switch b.Kind {
+	case "lzma2":
+		return t, 4096, true
+	case "lzma":
+		if len(t) < 13 {
+			return nil, 0, false
+		}
+		binary.LittleEndian.PutUint32(t[1:], 4096)
+		return t, 4096, true
+	}
+	l, lok := layoutOf(t, checkSizeOf(b.Check))
+	if !lok || len(l.blocks) == 0 {
+		return nil, 0, false
+	}
+	for _, blk := range l.blocks {
+		fo := blk.hdr + 2
+		for _, bit := range []byte{0x40, 0x80} {
+			if t[blk.hdr+1]&bit != 0 {
+				_, k := binary.Uvarint(t[fo:])
+				fo += k
+			}
+		}
+		t[fo+2] = 0
+		reseal(t, blk.hdr, blk.hdr+blk.hdrLen-4)
+	}
+	return t, 0, true
 }
